@@ -23,6 +23,8 @@ type c04Case struct {
 	Self    string   `json:"self"`
 	InType  bool     `json:"intype"`
 	Plain   bool     `json:"plain"`
+	TFile   string   `json:"tfile"` // the added type whose text holds the corrupted value ("" = @B at offset 0)
+	TPath   []string `json:"tpath"` // path of the value inside that type
 }
 
 type c04Mismatch struct {
@@ -83,8 +85,17 @@ func init() {
 			if len(c.Path) == 0 {
 				want = rr.Offsets[""]
 			}
+			wantFile := ""
 			if c.InType {
 				want = 0 // offset of the value inside the added type's own text
+				if c.TFile != "" {
+					wantFile = c.TFile
+					for _, t := range c.Env.Types {
+						if t.Name == c.TFile {
+							want = renderSchema(t.N).Offsets["/"+strings.Join(c.TPath, "/")]
+						}
+					}
+				}
 			}
 			if chk.OK {
 				atomic.AddInt64(&mism, 1)
@@ -92,6 +103,9 @@ func init() {
 			} else if chk.Kind != "liberr" || chk.Pos != want {
 				atomic.AddInt64(&mism, 1)
 				w.Write(c04Mismatch{rr.Text, false, "position", want, chk, ex})
+			} else if wantFile != "" && chk.File != wantFile {
+				atomic.AddInt64(&mism, 1)
+				w.Write(c04Mismatch{rr.Text, false, "position in the wrong file (want " + wantFile + ")", want, chk, ex})
 			}
 		})
 		b, _ := json.Marshal(map[string]int64{"good": good, "bad": bad, "mismatches": mism, "check_rejects_obeying_example": checkRejectsGood})
